@@ -475,6 +475,8 @@ impl<'a> Run<'a> {
         let Ok(mut file) = fatal::create_file(&path) else {
             return
         };
+        #[cfg(routinator_verif)]
+        crate::verif::kill_point("store.status.created");
         if let Err(err) = StoredStatus::new(Time::now()).write(&mut file) {
             error!(
                 "Failed to write store status file {}: {}",
@@ -498,6 +500,8 @@ impl<'a> Run<'a> {
         if let Some(dir) = path.parent() {
             fatal::create_dir_all(dir)?;
         }
+        #[cfg(routinator_verif)]
+        crate::verif::kill_point("store.ta.before-write");
         fatal::write_file(&path, content)
     }
 
@@ -636,6 +640,8 @@ impl Run<'_> {
                 let entry = entry?;
                 if entry.is_dir() {
                     if !recurse(entry.path(), false, op)? {
+                        #[cfg(routinator_verif)]
+                        crate::verif::kill_point("store.cleanup.rmdir");
                         fatal::remove_dir_all(entry.path())?;
                     }
                     else {
@@ -644,6 +650,8 @@ impl Run<'_> {
                 }
                 else if entry.is_file() {
                     if !op(entry.path())? {
+                        #[cfg(routinator_verif)]
+                        crate::verif::kill_point("store.cleanup.rmfile");
                         fatal::remove_file(entry.path())?;
                     }
                     else {
@@ -827,6 +835,8 @@ impl StoredPoint {
 
             })?;
 
+            #[cfg(routinator_verif)]
+            crate::verif::kill_point("store.open.truncated");
             if let Err(err) = file.seek(SeekFrom::Start(0)) {
                 error!(
                     "Failed to update stored publication point at {}: \
@@ -900,6 +910,8 @@ impl StoredPoint {
         let header = StoredPointHeader::new(
             manifest_uri.clone(), rpki_notify.cloned(),
         );
+        #[cfg(routinator_verif)]
+        crate::verif::kill_point("store.create.empty");
         if let Err(err) = header.write(&mut file) {
             error!(
                 "Failed to write stored publication point at {}: {}",
@@ -1022,6 +1034,8 @@ impl StoredPoint {
         // I think we need to drop `self.file` first so it gets closed and the
         // path unlocked on Windows?
         drop(self.file.take());
+        #[cfg(routinator_verif)]
+        crate::verif::kill_point("store.update.before-persist");
         match tmp_file.persist(&self.path) {
             Ok(file) => self.file = Some(BufReader::new(file)),
             Err(err) => {
@@ -1033,6 +1047,8 @@ impl StoredPoint {
                 return Err(UpdateError::fatal())
             }
         }
+        #[cfg(routinator_verif)]
+        crate::verif::kill_point("store.update.after-persist");
         self.manifest = Some(manifest);
 
         // Position the file at the first object. (The if will always be
@@ -1070,6 +1086,8 @@ impl StoredPoint {
                 return Err(Failed)
             }
         };
+        #[cfg(routinator_verif)]
+        crate::verif::kill_point("store.reject.truncated");
         if let Err(err) = self.header.write(&mut file) {
             error!(
                 "Failed to write stored publication point at {}: {}",
@@ -1189,9 +1207,15 @@ impl StoredPointHeader {
         &self, writer: &mut impl io::Write
     ) -> Result<(), io::Error> {
         Self::VERSION.compose(writer)?;
+        #[cfg(routinator_verif)]
+        crate::verif::kill_point("store.header.version");
 
         self.manifest_uri.compose(writer)?;
+        #[cfg(routinator_verif)]
+        crate::verif::kill_point("store.header.uri");
         self.rpki_notify.compose(writer)?;
+        #[cfg(routinator_verif)]
+        crate::verif::kill_point("store.header.notify");
         self.update_status.write(writer)?;
 
         Ok(())
@@ -1480,7 +1504,11 @@ impl StoredStatus {
         &self, writer: &mut impl io::Write
     ) -> Result<(), io::Error> {
         Self::VERSION.compose(writer)?;
+        #[cfg(routinator_verif)]
+        crate::verif::kill_point("store.status.version");
         self.last_update.compose(writer)?;
+        #[cfg(routinator_verif)]
+        crate::verif::kill_point("store.status.done");
         Ok(())
     }
 }
